@@ -17,10 +17,12 @@ import (
 	"time"
 
 	"github.com/thomasjungblut/go-sstables/recordio"
+	rProto "github.com/thomasjungblut/go-sstables/recordio/proto"
 	"github.com/thomasjungblut/go-sstables/simpledb"
 	"github.com/thomasjungblut/go-sstables/skiplist"
 	"github.com/thomasjungblut/go-sstables/sstables"
 	"github.com/thomasjungblut/go-sstables/wal"
+	"google.golang.org/protobuf/proto"
 )
 
 // ---------------------------------------------------------------------------------------------
@@ -29,7 +31,9 @@ import (
 //   - SimpleDB sessions with hook-placed rotations / flush waits / compaction cycles (compared with the Lean
 //     handle model step by step), compaction goroutine off, idle (1 h interval) or really ticking (few ms),
 //   - stand-alone table readers with scans (complete, abandoned, range) and Close,
-//   - recordio readers / writers and the WAL appender / replayer,
+//   - recordio readers / writers and the WAL appender / replayer, incl. writers that were rewound with Seek and are
+//     closed below their high-water mark (buffered and direct I/O) and table writers closed after a rolled-back
+//     WriteNext (index write fault through the hook),
 //   - a soak session with many flush + compaction + reopen cycles.
 //
 // Measured on the unchanged tree: at every quiescent point (client call returned, flusher idle, no compaction
@@ -1093,10 +1097,22 @@ func hRecordio(res *Result, r *Rng, idx int) error {
 	res.Cases++
 	var human []string
 	cs := func() string { return strings.Join(human, " ") }
+	reported := map[string]bool{} // a handle that was reported as left behind is not reported again for a later object
 	expect := func(what string, want int) error {
-		items, err := hObserve(dir)
+		all, err := hObserve(dir)
 		if err != nil {
 			return err
+		}
+		var items []string
+		for _, it := range all {
+			if !reported[it] {
+				items = append(items, it)
+			}
+		}
+		if want == 0 {
+			for _, it := range items {
+				reported[it] = true
+			}
 		}
 		res.Evaluations++
 		human = append(human, fmt.Sprintf("%s→%d", what, len(items)))
@@ -1145,6 +1161,15 @@ func hRecordio(res *Result, r *Rng, idx int) error {
 		return fmt.Errorf("recordio writer: %w", err)
 	}
 	res.Stat("case:recordio:writer")
+	// rewound writers and rolled-back table writers (own generator state: the cases around stay as they were)
+	r2 := &Rng{s: r.s ^ 0x7265776f756e6421}
+	r2.Next()
+	if err := hRewoundWriters(res, r2, dir, expect); err != nil {
+		return err
+	}
+	if err := hRolledBackTableWriter(res, r2, dir, expect); err != nil {
+		return err
+	}
 	// sequential reader: some records, or all, or none; constructed-but-never-opened readers too
 	err = safely(func() error {
 		rd, err := recordio.NewFileReader(recordio.ReaderPath(path), recordio.ReaderBufferSizeBytes(4096))
@@ -1291,6 +1316,195 @@ func hRecordio(res *Result, r *Rng, idx int) error {
 	}
 	res.NoteNontrivial(fmt.Sprintf("rio:%d:%d:%d:%d", comp, nrec, nwal, maxSize))
 	res.Sample(cs())
+	return nil
+}
+
+// hRewoundWriters: writer lifecycles Open, Write*, (Seek back to the offset of an earlier record, Write*){1..3},
+// Close - for the buffered writer with nothing, less or more written after the last rewind, for the direct-I/O
+// writer (which cannot write at an unaligned offset again) with nothing written after it.  Whatever Close has to
+// do about the bytes beyond the current offset, it has to release the descriptor.
+func hRewoundWriters(res *Result, r *Rng, dir string, expect func(string, int) error) error {
+	flavours := []string{"buffered"}
+	if ok, _ := recordio.IsDirectIOAvailable(); ok {
+		flavours = append(flavours, "directio")
+	} else {
+		res.Stat("case:recordio:rewound-writer:directio-unavailable")
+	}
+	for _, fl := range flavours {
+		path := filepath.Join(dir, fmt.Sprintf("rewound-%s.rio", fl))
+		comp := []int{recordio.CompressionTypeNone, recordio.CompressionTypeSnappy, recordio.CompressionTypeGZIP}[r.Intn(3)]
+		buf := []int{16, 64, 512, 4096, 65536}[r.Intn(5)]
+		maxRec := 300
+		if fl == "directio" {
+			buf, maxRec = 4096, 2000
+		}
+		wopts := []recordio.FileWriterOption{recordio.Path(path), recordio.CompressionType(comp), recordio.BufferSizeBytes(buf)}
+		if fl == "directio" {
+			wopts = append(wopts, recordio.DirectIO())
+		}
+		nrec := 1 + r.Intn(20)
+		seeks := 1 + r.Intn(3)
+		after := r.Intn(3) // after the last rewind: 0 nothing, 1 something short, 2 anything
+		if fl == "directio" {
+			seeks, after = 1, 0
+		}
+		what := fmt.Sprintf("rewound-%s-writer:comp=%d,buf=%d,recs=%d,seeks=%d,after=%d", fl, comp, buf, nrec, seeks, after)
+		err := safely(func() error {
+			w, err := recordio.NewFileWriter(wopts...)
+			if err != nil {
+				return err
+			}
+			if err := w.Open(); err != nil {
+				return err
+			}
+			var offs []uint64 // offsets of the records that survive
+			write := func(p []byte) error {
+				off, err := w.Write(p)
+				if err == nil {
+					offs = append(offs, off)
+				}
+				return err
+			}
+			genRec := func(max int) []byte {
+				if r.Chance(8) {
+					return nil
+				}
+				return r.Bytes(r.Intn(max + 1))
+			}
+			for i := 0; i < nrec; i++ {
+				if err := write(genRec(maxRec)); err != nil {
+					return err
+				}
+			}
+			highWater := w.Size()
+			for k := 0; k < seeks; k++ {
+				i := r.Intn(len(offs))
+				if err := w.Seek(offs[i]); err != nil {
+					return fmt.Errorf("seek to the record boundary %d: %w", offs[i], err)
+				}
+				offs = offs[:i]
+				n := 0
+				switch {
+				case k < seeks-1:
+					n = r.Intn(3)
+				case after == 1:
+					n = 1
+				case after == 2:
+					n = r.Intn(6)
+				}
+				for j := 0; j < n || len(offs) == 0 && k < seeks-1; j++ { // a later rewind needs a record to go back to
+					max := maxRec
+					if k == seeks-1 && after == 1 {
+						max = 4
+					}
+					if err := write(genRec(max)); err != nil {
+						return err
+					}
+				}
+				if w.Size() > highWater {
+					highWater = w.Size()
+				}
+			}
+			if w.Size() < highWater {
+				res.Stat("case:recordio:rewound-writer:" + fl + ":closed-below-high-water-mark")
+			} else {
+				res.Stat("case:recordio:rewound-writer:" + fl + ":closed-at-high-water-mark")
+			}
+			res.Stat(fmt.Sprintf("case:recordio:rewound-writer:seeks=%d", seeks))
+			if err := expect(what+":open", 1); err != nil {
+				return err
+			}
+			if err := w.Close(); err != nil {
+				return err
+			}
+			return expect(what+":closed", 0)
+		})
+		if err != nil {
+			return fmt.Errorf("recordio rewound writer (%s): %w", what, err)
+		}
+	}
+	return nil
+}
+
+type hFailingIndexWriter struct {
+	rProto.WriterI
+	failAt map[int]bool
+	calls  int
+}
+
+func (w *hFailingIndexWriter) Write(m proto.Message) (uint64, error) {
+	k := w.calls
+	w.calls++
+	if w.failAt[k] {
+		return 0, errors.New("injected index write fault")
+	}
+	return w.WriterI.Write(m)
+}
+
+// hRolledBackTableWriter: a table writer whose index write fails for one or two keys (hook): WriteNext rolls the
+// data file back with Seek; the writer is closed after that, with nothing, less or more written after the
+// roll-back.  Close releases index, data and metadata descriptors.
+func hRolledBackTableWriter(res *Result, r *Rng, dir string, expect func(string, int) error) error {
+	path := filepath.Join(dir, "rolled-back-table")
+	if err := os.MkdirAll(path, 0o700); err != nil {
+		return err
+	}
+	nkeys := 1 + r.Intn(12)
+	failAt := map[int]bool{r.Intn(nkeys): true}
+	if r.Chance(50) {
+		failAt[nkeys-1] = true // the last WriteNext is the one rolled back
+	}
+	var pos []string
+	for i := 0; i < nkeys; i++ {
+		if failAt[i] {
+			pos = append(pos, strconv.Itoa(i))
+		}
+	}
+	what := fmt.Sprintf("table-writer-after-rollback:keys=%d,index-fault-at=%s", nkeys, strings.Join(pos, "+"))
+	err := safely(func() error {
+		w, err := sstables.NewSSTableStreamWriter(sstables.WriteBasePath(path), sstables.WithKeyComparator(skiplist.BytesComparator{}),
+			sstables.WriteBufferSizeBytes([]int{64, 4096, 65536}[r.Intn(3)]))
+		if err != nil {
+			return err
+		}
+		if err := w.Open(); err != nil {
+			return err
+		}
+		w.VerifWrapWriters(nil, func(i rProto.WriterI) rProto.WriterI { return &hFailingIndexWriter{WriterI: i, failAt: failAt} })
+		rolledBack, lastRolledBack := 0, false
+		for i := 0; i < nkeys; i++ {
+			v := r.Bytes(1 + r.Intn(60))
+			if failAt[i] && r.Chance(60) {
+				v = r.Bytes(100 + r.Intn(3000))
+			}
+			err := w.WriteNext([]byte(fmt.Sprintf("key-%06d", i)), v)
+			if failAt[i] {
+				if err == nil {
+					return fmt.Errorf("WriteNext %d: the injected index fault was not reported", i)
+				}
+				rolledBack++
+			} else if err != nil {
+				return fmt.Errorf("WriteNext %d: %w", i, err)
+			}
+			lastRolledBack = failAt[i]
+		}
+		res.StatN("case:table-writer:rolled-back-writes", rolledBack)
+		if lastRolledBack {
+			res.Stat("case:table-writer:closed-right-after-rollback")
+		} else {
+			res.Stat("case:table-writer:closed-after-rollback-and-more-writes")
+		}
+		if err := expect(what+":open", 3); err != nil {
+			return err
+		}
+		if err := w.Close(); err != nil {
+			return err
+		}
+		return expect(what+":closed", 0)
+	})
+	if err != nil {
+		return fmt.Errorf("rolled-back table writer (%s): %w", what, err)
+	}
 	return nil
 }
 
